@@ -321,6 +321,10 @@ func c16GRPC(c *ctx) {
 		c.R.Inconcl("grpcs listener did not come up")
 		return
 	}
+	if err := waitTLSServing("warmup.invalid", grpcsAddr); err != nil {
+		c.R.Inconcl("%v", err)
+		return
+	}
 	ccs, err := grpc.NewClient(grpcsAddr, grpc.WithTransportCredentials(credentials.NewTLS(&tls.Config{InsecureSkipVerify: true})), grpc.WithDefaultCallOptions(grpc.MaxCallRecvMsgSize(16<<20), grpc.MaxCallSendMsgSize(16<<20)))
 	if err != nil {
 		c.R.Inconcl("grpcs client: %v", err)
